@@ -476,6 +476,138 @@ def check_decl_isolation(rep, n, extra_files=()):
                 f"walks, `custom_types`)", "pdl-compiler/src/backends")
 
 
+FILTER_FIELDS = {"exclude_declaration", "include_declaration"}
+
+
+def _parents(root):
+    """[(node, [ancestors, innermost last])] for every dict node under root"""
+    out = []
+
+    def go(x, stack):
+        if isinstance(x, dict):
+            out.append((x, stack))
+            for v in x.values():
+                if isinstance(v, (dict, list)):
+                    go(v, stack + [x])
+        elif isinstance(x, list):
+            for v in x:
+                go(v, stack)
+    go(root, [])
+    return out
+
+
+def _is_exact_any(call, name):
+    """`<name>.iter().any(|e| e == x)` (either side, through & * and no-op methods)"""
+    from .. import synq
+    if call.get("method") != "any" or len(call.get("args", [])) != 1 or call["args"][0].get("k") != "Closure":
+        return False
+    r = call["recv"]
+    if not (r.get("k") == "MethodCall" and r.get("method") in ("iter", "into_iter") and r["recv"].get("k") == "Path"
+            and r["recv"]["path"]["s"] == name):
+        return False
+    clo = call["args"][0]
+    body = clo.get("body")
+    while isinstance(body, dict) and body.get("k") in ("Paren", "Block") and (body.get("e") or (len(body.get("stmts", [])) == 1)):
+        body = body.get("e") or body["stmts"][0].get("e") or body["stmts"][0]
+    return isinstance(body, dict) and body.get("k") == "Binary" and body.get("op", "").strip() == "=="
+
+
+def check_exact_selection(rep, n):
+    """(e4) a declaration is excluded / included by its exact name: the filter lists given on the command line may only be
+    consumed by exact membership (`contains`, `is_empty`, `len`, `iter().any(|e| e == id)`) or handed to another function of
+    the tool, whose parameter is then under the same rule.  A prefix, glob or case-folding match removes (or keeps) declarations
+    the user did not name - code of unrelated declarations disappears."""
+    from .. import synq
+    files = ["pdl-compiler/src/main.rs", "pdl-compiler/src/backends/python.rs", "pdl-compiler/src/backends/cxx.rs"]
+    fns = {}
+    for rel in files:
+        js = stages.repo_syn(rel)
+        if js:
+            for name, f in synq.functions(js).items():
+                fns.setdefault(name.split("::")[-1], []).append((rel, name, f))
+    n["selection_uses"] = n["selection_params"] = 0
+    visited = set()
+
+    def param_names(f):
+        return [p_.get("pat", {}).get("id") if isinstance(p_, dict) else None for p_ in (f.get("params") or [])]
+
+    def follow_call(callnode, argi, rel, where):
+        fn_ = callnode.get("func", {})
+        last = fn_.get("path", {}).get("s", "").split("::")[-1] if fn_.get("k") == "Path" else None
+        cands = fns.get(last, [])
+        if len(cands) != 1:
+            # python::generate / cxx::generate share a last segment: pick by the module named in the path
+            full = fn_.get("path", {}).get("s", "") if fn_.get("k") == "Path" else ""
+            cands = [c for c in cands if c[0].rsplit("/", 1)[-1][:-3] in full.split("::")]
+        if len(cands) != 1:
+            rep.add(f"C11|exclusion|filter-list-escapes|{rel}|{where}", f"{rel}:{callnode.get('l')}: the declaration filter list is "
+                    f"handed to `{fn_.get('path', {}).get('s', '?')}`, which is not a function of the tool this rule can read: how "
+                    f"the list selects declarations is not visible", f"{rel}:{callnode.get('l')}")
+            return
+        crel, cname, cf = cands[0]
+        pn = param_names(cf)
+        if argi < len(pn) and pn[argi]:
+            check_param(crel, cname, cf, pn[argi])
+
+    def check_param(rel, fname, f, pname):
+        if (rel, fname, pname) in visited:
+            return
+        visited.add((rel, fname, pname))
+        n["selection_params"] += 1
+        for node, stack in _parents(f.get("body")):
+            if not (node.get("k") == "Path" and node.get("path", {}).get("s") == pname):
+                continue
+            n["selection_uses"] += 1
+            anc = list(reversed(stack))
+            i = 0
+            cur = node
+            while i < len(anc) and anc[i].get("k") in ("Ref", "Paren") :
+                cur = anc[i]; i += 1
+            par = anc[i] if i < len(anc) else {}
+            ok = False
+            if par.get("k") == "MethodCall" and par.get("recv") is cur:
+                if par["method"] in ("contains", "is_empty", "len"):
+                    ok = True
+                elif par["method"] in ("iter", "into_iter") and i + 1 < len(anc) and _is_exact_any(anc[i + 1], pname):
+                    ok = True
+            elif par.get("k") == "Call" and any(a is cur for a in par.get("args", [])):
+                follow_call(par, [a is cur for a in par["args"]].index(True), rel, fname)
+                ok = True
+            if not ok:
+                rep.add(f"C11|exclusion|inexact-selection|{rel}|{fname}|{pname}",
+                        f"{rel}:{node.get('l')}: in {fname} the declaration filter list `{pname}` is consumed by something other "
+                        f"than exact membership (contains / is_empty / iter().any(|e| e == id)): a declaration the user did not name "
+                        f"can be excluded or kept, so code of unrelated declarations changes", f"{rel}:{node.get('l')}")
+
+    for last, lst in sorted(fns.items()):
+        for rel, name, f in lst:
+            if re.search(r"(^|::)tests?::", name):
+                continue
+            for pn in param_names(f):
+                if pn and pn.endswith("_declarations"):
+                    check_param(rel, name, f, pn)
+            # opt.exclude_declaration / opt.include_declaration handed on from main.rs
+            for node, stack in _parents(f.get("body")):
+                if node.get("k") == "Field" and node.get("member") in FILTER_FIELDS:
+                    n["selection_uses"] += 1
+                    anc = list(reversed(stack))
+                    i, cur = 0, node
+                    while i < len(anc) and anc[i].get("k") in ("Ref", "Paren"):
+                        cur = anc[i]; i += 1
+                    par = anc[i] if i < len(anc) else {}
+                    if par.get("k") == "Call" and any(a is cur for a in par.get("args", [])):
+                        follow_call(par, [a is cur for a in par["args"]].index(True), rel, name)
+                    elif par.get("k") == "MethodCall" and par.get("recv") is cur and par["method"] in ("contains", "is_empty", "len"):
+                        pass
+                    else:
+                        rep.add(f"C11|exclusion|inexact-selection|{rel}|{name}|{node['member']}",
+                                f"{rel}:{node.get('l')}: in {name} the option `{node['member']}` is consumed by something other than "
+                                f"exact membership or a call of a function of the tool", f"{rel}:{node.get('l')}")
+    if n["selection_params"] < 4 or n["selection_uses"] < 10:
+        rep.add("C11|floor|selection-sites", f"only {n['selection_params']} filter-list parameters / {n['selection_uses']} uses seen "
+                f"(floor 4 / 10: filter_declarations x2, python::generate, cxx::generate)", "pdl-compiler/src/main.rs")
+
+
 def check_isolation_fixture(rep, n):
     """The rule's expected count on the tree is zero: a fixture with one instance of each construct must match on every run."""
     import os, tempfile
@@ -522,6 +654,7 @@ def run(rep, tier, seed):
     check_ident_hygiene(rep, n)
     check_decl_isolation(rep, n)
     check_isolation_fixture(rep, n)
+    check_exact_selection(rep, n)
     java = None
     if tier == "thorough":
         try:
@@ -543,7 +676,8 @@ def run(rep, tier, seed):
                               "exclude_declarations tests it",
                       "files": n.get("isolation_files"), "items_scanned": n.get("isolation_items"),
                       "declaration_walks": n.get("isolation_loops"), "walk_accumulator_pairs": n.get("isolation_locals"),
-                      "walks_testing_exclude": n.get("exclude_loops"), "fixture_hits": n.get("isolation_fixture_hits")},
+                      "walks_testing_exclude": n.get("exclude_loops"),
+                      "filter_list_params": n.get("selection_params"), "filter_list_uses": n.get("selection_uses"), "fixture_hits": n.get("isolation_fixture_hits")},
         "samples": n["samples"][:6] or [{"note": "no hash-ordered iteration site"}],
         "evaluations": n["calls"], "distinct_nontrivial": n["hash_sites"] + n["ambient_sites"] + n["pipeline_sites"],
     })
